@@ -259,6 +259,9 @@ func ruleLintNarrow(c *Ctx, r *Rep) {
 				key := "narrow|" + c.FuncKey(fn)
 				if lb != nil && ub != nil && *lb >= 0 && *ub <= 255 {
 					r.Ok(key, c.Pos(cv.Pos()), "0 <= v <= 255 established before the conversion", sprintf("%d..%d", *lb, *ub))
+					if to.Kind() == types.Uint8 {
+						r.Check(*lb == 0 && *ub == 255, "octet-range|"+c.FuncKey(fn), c.Pos(cv.Pos()), "every value a byte can hold is accepted: 0..255", sprintf("%d..%d", *lb, *ub))
+					}
 				} else {
 					r.Bad(key, c.Pos(cv.Pos()), "a dominating range test 0..255 of the parsed value", "conversion to "+to.Name()+" of an unchecked strconv result silently truncates")
 				}
